@@ -56,7 +56,7 @@ PA(acts, streaming) ==
 PEv(name) ==
     LET r == PluginEvent(ps, name)
     IN  /\ ps' = r.ps
-        /\ cs' = PevStep(cs, [name |-> name, rl |-> r.ps.fs.regs, notes |-> r.notes])
+        /\ cs' = PevStep(cs, [name |-> name, rl |-> r.ps.fs.regs, notes |-> r.notes, nx |-> TRUE])
         /\ hist' = Append(hist, [k |-> "pev", t |-> name])
         /\ lastEv' = name
 
@@ -78,7 +78,7 @@ PApi(req, fresh) ==
     LET r == PluginApi(ps, req, fresh)
         ev == [cmd |-> req.cmd, anon |-> req.anon, typ |-> req.typ, id |-> req.id,
                hasId |-> req.hasId, a |-> req.a, b |-> req.b, c |-> req.c, d |-> req.d,
-               status |-> r.status, rl |-> r.ps.fs.regs, notes |-> r.notes]
+               status |-> r.status, rl |-> r.ps.fs.regs, notes |-> r.notes, nx |-> TRUE]
     IN  /\ ps' = r.ps
         /\ cs' = ApiStep(cs, ev, 1)
         /\ hist' = Append(hist, [k |-> "api",
